@@ -1013,7 +1013,7 @@ class FD:
 
 
 _BUILTIN_TYPES = {'int': int, 'float': float, 'str': str, 'bool': bool, 'list': list, 'tuple': tuple,
-                  'dict': dict, 'set': set, 'frozenset': frozenset, 'complex': complex, 'bytes': bytes}
+                  'dict': dict, 'set': set, 'frozenset': frozenset, 'complex': complex, 'bytes': bytes, 'Ellipsis': Ellipsis}
 
 
 class _Lit(ast.expr):
